@@ -67,19 +67,22 @@ theorem via_is_inherent (route : String) (layers : List Wrapper) (op : String) (
 /-! ### Collection traits -/
 
 /-- `extend` is the explicit sequence of `get_or_intern` calls: when it runs to the end, the
-interner is the one reached by that history. -/
+interner is the one reached by the history that interns the items one by one, in order (with some
+table-growth oracle per call, which no result depends on). -/
 theorem extend_is_intern_sequence (env : Env) (r : Rodeo) (xs : List Bytes) (r' : Rodeo)
-    (h : r.extend env xs = (r', true)) : r' = r.run env (xs.map fun x => ROp.intern x true) := by
+    (h : r.extend env xs = (r', true)) :
+    ∃ gs : List Bool, gs.length = xs.length ∧ r' = r.run env (List.zipWith ROp.intern xs gs) := by
   induction xs generalizing r with
-  | nil => simp [Rodeo.extend] at h; simp [Rodeo.run, h]
+  | nil => simp [Rodeo.extend] at h; exact ⟨[], rfl, by simp [Rodeo.run, h]⟩
   | cons x rest ih =>
     unfold Rodeo.extend at h
-    cases hs : r.tryIntern env x true with
+    cases hs : r.tryIntern env x (growAt r.strings.length) with
     | ok p =>
       simp only [hs] at h
-      have := ih p.1 h
-      simp only [List.map_cons, Rodeo.run, List.foldl_cons, Rodeo.apply, hs]
-      exact this
+      obtain ⟨gs, hl, he⟩ := ih p.1 h
+      refine ⟨growAt r.strings.length :: gs, by simp [hl], ?_⟩
+      simp only [List.zipWith_cons_cons, Rodeo.run, List.foldl_cons, Rodeo.apply, hs]
+      exact he
     | err e => simp [hs] at h
     | panic => simp [hs] at h
     | fault f => simp [hs] at h
@@ -96,13 +99,14 @@ theorem extend_contents {env : Env} {r r' : Rodeo} (hr : RodeoReach env r) (xs :
   | cons x rest ih =>
     have hi := rodeo_reach_inv hr
     unfold Rodeo.extend at h
-    have hstep : ∃ r1 k, r.tryIntern env x true = .ok (r1, k) ∧ RodeoReach env r1 ∧ r1.str env k = some x ∧
+    generalize hg : growAt r.strings.length = g at h
+    have hstep : ∃ r1 k, r.tryIntern env x g = .ok (r1, k) ∧ RodeoReach env r1 ∧ r1.str env k = some x ∧
         ∀ j y, r.str env j = some y → r1.str env j = some y := by
       obtain ⟨N, cap, max, ops, hc, hw, rfl⟩ := hr
-      have hreach : ∀ r1 k, ((Rodeo.new N cap max).run env ops).tryIntern env x true = .ok (r1, k) →
+      have hreach : ∀ r1 k, ((Rodeo.new N cap max).run env ops).tryIntern env x g = .ok (r1, k) →
           RodeoReach env r1 := by
         intro r1 k he
-        refine ⟨N, cap, max, ops ++ [.intern x true], hc, ?_, ?_⟩
+        refine ⟨N, cap, max, ops ++ [.intern x g], hc, ?_, ?_⟩
         · intro op hop
           simp only [List.mem_append, List.mem_singleton] at hop
           rcases hop with hop | rfl
@@ -110,7 +114,7 @@ theorem extend_contents {env : Env} {r r' : Rodeo} (hr : RodeoReach env r) (xs :
           · trivial
         · simp only [Rodeo.run, List.foldl_append, List.foldl_cons, List.foldl_nil, Rodeo.apply] at he ⊢
           rw [he]
-      rcases Rodeo.tryIntern_spec hi x true with ⟨k, hk, he⟩ | ⟨_, ⟨_, he⟩ | ⟨_, ⟨_, he⟩ | ⟨r1, ref, he, _, hp⟩⟩⟩
+      rcases Rodeo.tryIntern_spec hi x g with ⟨k, hk, he⟩ | ⟨_, ⟨_, he⟩ | ⟨_, ⟨_, he⟩ | ⟨r1, ref, he, _, hp⟩⟩⟩
       · exact ⟨_, k, he, hreach _ _ he, hk, fun _ _ h => h⟩
       · rw [he] at h; simp at h
       · rw [he] at h; simp at h
